@@ -430,7 +430,11 @@ def merge_runs(data: ArrayLike, digits: Optional[Integer] = None):
     data = np.asanyarray(data)
     mask = np.zeros(len(data), dtype=bool)
     mask[0] = True
-    mask[1:] = np.abs(data[1:] - data[:-1]) > epsilon
+    if data.dtype.kind in "iub":
+        # the difference of integers can wrap around
+        mask[1:] = data[1:] != data[:-1]
+    else:
+        mask[1:] = np.abs(data[1:] - data[:-1]) > epsilon
 
     return data[mask]
 
